@@ -866,10 +866,13 @@ pub fn scan_fingerprint(role: &str, doc: &[u8]) -> String {
   let fp = input_fingerprint(role, doc);
   const REL: &str = "cyclic utils through relational rules";
   const RWS: &str = "rewriter rewriting with itself";
+  const CON: &str = "rule requiring itself through a constraint";
   if fp.contains(REL) {
     format!("c11 {REL}")
   } else if fp.contains(RWS) {
     format!("c11 {RWS}")
+  } else if fp.contains(CON) {
+    format!("c11 {CON}")
   } else {
     fp
   }
@@ -958,8 +961,22 @@ pub fn input_fingerprint(role: &str, doc: &[u8]) -> String {
       _ => {}
     }
   }
+  fn mentions_matches(v: &Value, id: &str) -> bool {
+    match v {
+      Value::Object(o) => o.iter().any(|(k, x)| (k == "matches" && x.as_str() == Some(id)) || mentions_matches(x, id)),
+      Value::Array(a) => a.iter().any(|x| mentions_matches(x, id)),
+      _ => false,
+    }
+  }
   for d in &docs {
     walk(d, "", &mut feats);
+    // a (global utility) rule whose CONSTRAINTS require the rule itself: when the constrained variable
+    // is bound to the matched node the rule runs on the same node again
+    if let (Some(id), Some(c)) = (d.get("id").and_then(|s| s.as_str()), d.get("constraints")) {
+      if mentions_matches(c, id) {
+        feats.push("rule requiring itself through a constraint".into());
+      }
+    }
     match util_cycle_kind(d) {
       Some("relational") => feats.push("cyclic utils through relational rules".into()),
       Some("ofRule") => feats.push("cyclic utils through nthChild.ofRule".into()),
@@ -1016,6 +1033,9 @@ pub fn yaml_scan(ctx: &Ctx, rng: &mut Rng, o: &mut Out) {
     "id: g\nlanguage: JavaScript\nutils:\n  x: {any: [{kind: string}, {matches: g}]}\nrule: {kind: number, matches: x}\n",
     "id: g\nlanguage: JavaScript\nutils:\n  x: {matches: y}\n  y: {not: {matches: g}}\nrule: {kind: identifier, matches: x}\n",
     "id: g\nlanguage: JavaScript\nrule: {kind: number, matches: nonexistent}\n",
+    // a global rule that requires itself on the same node through a CONSTRAINT on a variable
+    // bound to the matched node itself (known finding: constraints are not part of the cycle check)
+    "id: g\nlanguage: JavaScript\nrule: {kind: number, pattern: $A}\nconstraints:\n  A: {matches: g}\n",
   ] {
     docs.push((w.as_bytes().to_vec(), "witness", "util"));
   }
